@@ -84,3 +84,13 @@ claim("C11", "other", "receiver-provenance who-may-call (source untouched), must
       "Decides: CopyTo touches its source only through functions that neither write the file nor publish (A-src); with flushEvery > 0 every success return follows a destination Flush with nothing written after it, and a Flush follows the copy loop (CP1); every source collection, empty ones included, is created on the new store with the same name and comparator (CP2); items are read with values from the smallest key on and the visited item itself is set into the destination, the copy visitor stopping only on a recorded error (CP3); every error in CopyTo propagates (E1c). Equivalence of contents, compaction and in-copy eviction effects are not decided.",
       "Trusted: go/ssa.",
       "DESIGN.md §4 C11")
+
+claim("C13", "other", "assume/guarantee order-typing of union/split/join: symbolic tree terms from SSA + closure prover over order, priority, emptiness facts; structural aggregate rule",
+      "An inductive argument (on tree height) checked per function: at every constructed node left < key < right (T-order) and priorities below <= the node's (T-heap, equal-key replacement exempt); at every success return the result bounds follow from the input bounds, split returns left < s < right with the middle carrying s, join is only called on key-separated trees (T-contract); the items/subtrees of the results are exactly those of the inputs (T-lin); every constructed node carries numInfo sums + 1 / + its own item's bytes for exactly its children (T-agg), stored by mkNode and persisted by the encoder; copy-on-write and byte-length dispatch shared with C05/C17; depth = recursion depth. All 7 node sites and 14 return shapes discharge; every semantic mutant in the corpus (swapped children, flipped priority test, wrong split key, lost/duplicated subtree, missing +1, wrong item's bytes) is refuted by the named rule. Given a strict-weak-order comparator and that nodes read back are the nodes written (C14/C02) this makes every published tree a search tree with exact aggregates and heap order for all inputs and histories. Canonical shape for distinct priorities is the standard corollary, not re-derived. Claimed at 'other' rather than 'proof' because the prover is bespoke and its rule set is part of the trusted base.",
+      "Trusted: go/ssa; the prover's rules (treap.go: subset/bound/hull rules, three-way narrowing, ||-merge of emptiness); comparator strict weak order; C14/C02 for persistence.",
+      "DESIGN.md §3.H, §4 C13")
+
+claim("C01", "other", "interval evaluation of validation guards, order-fact check of the lookup descent, set-algebra shape of SetItem/Delete over the C13-proved operations",
+      "Decides the structural clauses of sorted-map behaviour: exact argument validation before any effect (S-valid), lookup orientation and hit condition of GetItem, Min/Max choosers, walk (S-lookup), SetItem = publish(union(pinned root, leaf(new item))) with the new item winning on equal keys, Delete = publish(join(left,right of split)) reporting true only for a found key after a successful publish, GetTotals = pinned root aggregates (S-algebra), on top of C13's order/content/aggregate rules for union/split/join. Equality of every return value with a reference map over histories interleaved with Flush/eviction/reopen is not decided (its structural preconditions are W1, C14, C02).",
+      "Trusted: go/ssa; comparator strict weak order; C13's prover.",
+      "DESIGN.md §4 C01")
